@@ -557,6 +557,9 @@ class EventBus:
                         # Only add as child if it's a different event (not forwarding the same event)
                         if event.event_id != current_event.event_id:
                             current_event.event_results[current_handler_id].event_children.append(event)
+                            # the handler's event waits for this child even when an explicit event_parent_id points
+                            # elsewhere, so its completion must propagate to that event
+                            event._event_parent = current_event  # pyright: ignore[reportPrivateUsage]
 
                 # Add this EventBus to the event_path if not already there
                 if self.name not in event.event_path:
